@@ -40,38 +40,29 @@ def spaceSeqs : List Str :=
    [0xE2, 0x80, 0x88], [0xE2, 0x80, 0x89], [0xE2, 0x80, 0x8A], [0xE2, 0x80, 0xA8],
    [0xE2, 0x80, 0xA9], [0xE2, 0x80, 0xAF], [0xE2, 0x81, 0x9F], [0xE3, 0x80, 0x80]]
 
-/-- length of the white-space rune at the front of `s` (0 = none) -/
-def spacePrefixLen (s : Str) : Nat :=
-  match spaceSeqs.find? (fun q => q.isPrefixOf s) with
+/-- length of the entry of `tbl` at the front of `s` (0 = none) -/
+def prefLen (tbl : List Str) (s : Str) : Nat :=
+  match tbl.find? (fun q => q.isPrefixOf s) with
   | some q => q.length
   | none => 0
 
-def trimLeft : Str → Str
+/-- strip entries of `tbl` from the front of `s` for as long as there is one -/
+def trimL (tbl : List Str) : Str → Str
   | [] => []
   | s@(_ :: rest) =>
-    match spacePrefixLen s with
+    match prefLen tbl s with
     | 0 => s
-    | k+1 => trimLeft (rest.drop k)
+    | k+1 => trimL tbl (rest.drop k)
 termination_by s => s.length
 decreasing_by simp [List.length_drop]; omega
 
 /-- the reversed encodings, for trimming from the right on the reversed string -/
 def spaceSeqsRev : List Str := spaceSeqs.map List.reverse
 
-def spaceSuffixLenRev (r : Str) : Nat :=
-  match spaceSeqsRev.find? (fun q => q.isPrefixOf r) with
-  | some q => q.length
-  | none => 0
-
-/-- trims white space from the front of the *reversed* string -/
-def trimLeftRev : Str → Str
-  | [] => []
-  | s@(_ :: rest) =>
-    match spaceSuffixLenRev s with
-    | 0 => s
-    | k+1 => trimLeftRev (rest.drop k)
-termination_by s => s.length
-decreasing_by simp [List.length_drop]; omega
+/-- `strings.TrimLeftFunc(s, unicode.IsSpace)` -/
+def trimLeft (s : Str) : Str := trimL spaceSeqs s
+/-- the same from the right, on the *reversed* string -/
+def trimLeftRev (s : Str) : Str := trimL spaceSeqsRev s
 
 /-- `strings.TrimSpace` -/
 def trimSpace (s : Str) : Str := (trimLeftRev (trimLeft s).reverse).reverse
